@@ -476,6 +476,16 @@ func c17Models(thorough bool) []gen.Tagged {
 	for i := 0; i < len(three); i += step {
 		out = append(out, three[i])
 	}
+	// condition lists of one to four entries, tupleset lists with repeated parents, several public types
+	mstep := 16
+	if thorough {
+		mstep = 2
+	}
+	for _, fam := range [][]gen.Tagged{c10ManyConds(), gen.TuplesetListModels(), c11Many()} {
+		for i := 0; i < len(fam); i += mstep {
+			out = append(out, fam[i])
+		}
+	}
 	return out
 }
 
